@@ -85,7 +85,9 @@ type Subscriber struct {
 	// cancels them when the subscriber is closed.
 	asyncCtx    context.Context
 	asyncCancel context.CancelFunc
-	asyncWG   sync.WaitGroup
+	asyncWG     sync.WaitGroup
+	// bgWG waits for the event distributor and the idle handler cleaner.
+	bgWG sync.WaitGroup
 
 	ipniSync *ipnisync.Sync
 
@@ -272,6 +274,7 @@ func NewSubscriber(host host.Host, lsys ipld.LinkSystem, options ...Option) (*Su
 		go s.watch()
 	}
 	// Start distributor to send SyncFinished messages to interested parties.
+	s.bgWG.Add(2)
 	go s.distributeEvents()
 	// Start goroutine to remove idle publisher handlers.
 	go s.idleHandlerCleaner()
@@ -356,8 +359,10 @@ func (s *Subscriber) doClose() error {
 	s.asyncWG.Wait()
 	verifhook.Point("close.step", 5)
 
-	// Stop the distribution goroutine.
+	// Stop the distribution goroutine, and wait until it has closed the
+	// listeners' channels and the idle handler cleaner has exited too.
 	close(s.inEvents)
+	s.bgWG.Wait()
 	verifhook.Point("close.step", 6)
 
 	s.httpPeerstore.Close()
@@ -659,6 +664,8 @@ func removeIDFromAddrs(peerInfo peer.AddrInfo) (peer.AddrInfo, error) {
 // the even to all channels in outEventsChans. This delivers the SyncFinished
 // to all OnSyncFinished channel readers.
 func (s *Subscriber) distributeEvents() {
+	defer s.bgWG.Done()
+
 	var outEventsChans []chan<- SyncFinished
 
 	for {
@@ -748,6 +755,8 @@ func (s *Subscriber) doneWithHandler(hnd *handler) {
 // idleHandlerCleaner periodically looks for idle handlers to remove. This
 // prevents accumulation of handlers that are no longer in use.
 func (s *Subscriber) idleHandlerCleaner() {
+	defer s.bgWG.Done()
+
 	t := time.NewTimer(s.idleHandlerTTL)
 
 	for {
@@ -825,6 +834,8 @@ func (s *Subscriber) watch() {
 		// Start a new goroutine to handle this message.
 		s.asyncWG.Add(1)
 		go func() {
+			// Done last, after the locks and the semaphore are released.
+			defer s.asyncWG.Done()
 			// Wait for any previous asyncSyncAdChain to finish before removing the
 			// latest pending messaged and reducing the available items in the sync
 			// semaphore.
@@ -843,7 +854,6 @@ func (s *Subscriber) watch() {
 				}
 			}
 			hnd.asyncSyncAdChain(ctx)
-			s.asyncWG.Done()
 		}()
 	}
 }
